@@ -282,7 +282,21 @@ def sh_generic(rng):
     return g.program(), {}, "generic"
 
 
-IN_SHAPES = [sh_const_in_cond, sh_nested_reassign, sh_nonint, sh_goal_const, sh_simult_branch, sh_cat_branch,
+def sh_two_dice(rng):
+    """a condition variable built from TWO finite variables: more than 25 value combinations (6 x 6) but at most 25
+    distinct values (11 sums / 15 products), i.e. within the typer's limit on VALUES"""
+    if rng.random() < 0.5:
+        comb, thr, tag = add(v("a"), v("b")), rng.choice([7, 5, 10]), "sum"
+        lo, hi = 1, 6
+    else:
+        comb, thr, tag = mul(v("a"), v("b")), rng.choice([0, 6, 12]), "product"
+        lo, hi = 0, 5
+    body = [("assign", "a", ("draw", ("unif", lo, hi))), ("assign", "b", ("draw", ("unif", lo, hi))), assign("s", comb),
+            ("if", [(atom("s", rng.choice(["==", ">=", "<"]), thr), [assign("x", add(v("x"), c(1)))])], None)]
+    return prog([assign("a", c(lo)), assign("b", c(lo)), assign("s", c(0)), assign("x", c(0))], body), {}, "two-dice-" + tag
+
+
+IN_SHAPES = [sh_two_dice, sh_const_in_cond, sh_nested_reassign, sh_nonint, sh_goal_const, sh_simult_branch, sh_cat_branch,
              sh_multi_assign, sh_guard, sh_linear_cycle, sh_nl_acyclic, sh_cont_location, sh_many_values, sh_all_finite, sh_generic]
 
 
